@@ -634,6 +634,23 @@ def run(ctx, use_model=True):
                 one_document(ctx, doc, fmts, scratch_far, fails, model_ops, pending, i)
             else:
                 one_document(ctx, doc, fmts, scratch, fails, model_ops, pending, i)
+            if i % 2 == 1 and not [f_ for f_ in fails if not f_.sig]:
+                # the same document object again, after a change made below its surface (a record added to a bundle it already
+                # holds, an attribute added to a record it already holds): every destination receives the document as it is now
+                try:
+                    bs = list(doc.bundles)
+                    if bs:
+                        bs[0].add_namespace("ex", "http://example.org/")
+                        bs[0].entity("ex:später-%d" % i, {"ex:étiquette": "ajouté après"})
+                    recs = list(doc.get_records())
+                    if recs:
+                        recs[0].add_attributes([("prov:label", "ajouté après %d" % i)])
+                    changed = bool(bs or recs)
+                except Exception:  # noqa
+                    changed = False
+                if changed:
+                    ctx.count("same-object-after-a-change-below-the-surface")
+                    one_document(ctx, doc, fmts, scratch, fails, model_ops, pending, "%s-again" % i)
         run_locale_probe(ctx, fails)
         if use_model:
             judge_model(ctx, model_ops, pending, fails)
